@@ -83,11 +83,16 @@ def find_mode_and_uncertainty(n, bins, confidence) -> (float, float):
     value = (bins[max_idx] + bins[max_idx + 1]) / 2
     count = n[max_idx]
     low_idx, high_idx = max_idx, max_idx
-    while count < confidence * number_of_samples:
+    while count < confidence * number_of_samples and (low_idx > 0 or high_idx < len(n) - 1):
         low_idx -= 1
         high_idx += 1
-        count += n[low_idx] + n[high_idx]
-    error = (bins[high_idx] + bins[high_idx + 1]) / 2 - value
+        # positions beyond either end of the histogram hold no samples
+        if low_idx >= 0:
+            count += n[low_idx]
+        if high_idx < len(n):
+            count += n[high_idx]
+    # the uncertainty is the number of bin widths walked on each side of the mode
+    error = (high_idx - max_idx) * ((bins[-1] - bins[0]) / len(n))
     return value, error
 
 
